@@ -168,7 +168,7 @@ func runParScenario(seed uint64, size int, t *Trace) error {
 		for i := 0; i < r.Intn(3); i++ {
 			k := detKey(seed, 600+nextSrv)
 			nextSrv++
-			as := server.AuthorizedServer{PublicKey: k.Pub, Banned: r.Chance(30), Location: "127.0.0.1", HttpPort: closedPortOnce(), TcpPort: uint16(r.Intn(65536)), UdpPort: uint16(r.Intn(65536))}
+			as := server.AuthorizedServer{PublicKey: k.Pub, Banned: r.Chance(30), Location: myIP, HttpPort: closedPortOnce(), TcpPort: uint16(r.Intn(65536)), UdpPort: uint16(r.Intn(65536))}
 			signer := s.E.GCA.Priv
 			if r.Chance(15) {
 				signer = s.E.Temp.Priv
@@ -186,7 +186,7 @@ func runParScenario(seed uint64, size int, t *Trace) error {
 			ng := detKey(seed, 700+r.Intn(2))
 			em := server.EquipmentMigration{Equipment: dv.key.Pub, NewGCA: ng.Pub, NewShortID: uint32(r.Intn(100))}
 			for i := 0; i < r.Intn(3); i++ {
-				as := server.AuthorizedServer{PublicKey: detKey(seed, 800+i).Pub, Location: "127.0.0.1", HttpPort: 1, TcpPort: 2, UdpPort: 3, Banned: r.Chance(20)}
+				as := server.AuthorizedServer{PublicKey: detKey(seed, 800+i).Pub, Location: myIP, HttpPort: 1, TcpPort: 2, UdpPort: 3, Banned: r.Chance(20)}
 				as.GCAAuthorization = glow.Sign(as.SigningBytes(), ng.Priv)
 				em.NewServers = append(em.NewServers, as)
 			}
